@@ -21,6 +21,9 @@ CLAIMS = {
  'C18': dict(engine='BIT', technique='bit-level abstract interpretation (GF(2) ANF) of encoder and decoder with range partitioning on the ladder comparisons; decoder decision tree over completely symbolic bytes; loop-body transformer for the length counter',
    cat='proof', text='the encoder is analysed once for a symbolic 31-bit code point: each decision-tree leaf is a length class whose range, written indices and byte layout are compared with the UTF-8 table; those byte vectors are pushed through the decoder\'s abstract semantics (num >= len: same length and same 31 bits, every proper prefix: 0); the decoder is also analysed on arbitrary bytes for num=0..6 and any num>6 (all reads < num, result <= num, multi-byte results only with 10xxxxxx trailers and a matching lead byte); a_utf_length advances by exactly the reported lengths and stops at the first 0',
    note=TRUST + ', lib/bit.py ANF; covers all 2^31-1 code points and all byte strings symbolically; reads-in-bounds for a symbolic num between 0 and 6 are covered by enumerating num, not by a relational bound; a_utf_catc reservation (src/str.c) is checked under C06 when LIN is available; a_utf_length_ (non-validating counter) is not covered'),
+ 'C12': dict(engine='ALG+PATH', technique='decision-tree abstract interpretation over exact real terms (path conditions = ordered/unordered float comparisons); clamp-leaf rule, guard truth-table rule, algebraic identity between the positional and incremental forms, def-use rule for zero(); effect-set summary for the fuzzy gain scheduler',
+   cat='other', text='for all 13 step functions (plain, single-neuron, fuzzy; internal and public entry points) every path returns and stores outmin, outmax or a value guarded by outmin < v < outmax (NaN-safe where a division can produce NaN), for all gains/limits/states/inputs; the positional integrator moves exactly under the documented condition with increment ki*err; outputs and caches equal the documented difference equations and the two modes coincide algebraically; zero() clears every step-carried field',
+   note=TRUST + ', sympy; IEEE operations read as exact real operations; NOT decided: finiteness of the state over unbounded histories (needs numeric reasoning) and the single-neuron learning equations (not fixed by the property); a_pid_fuzzy_out_ is summarised as "may change pid.kp/ki/kd only", justified by the effect-set rule D1s under the assumption that scratch buffers and rule tables do not overlap the controller object and the operator callback is pure'),
 }
 
 NA = {
@@ -53,7 +56,7 @@ def main():
                   'baseline_off_cmd': 'ctest --test-dir /repo/_build -j8 --timeout 900', 'source_commits': [], 'add_only': True},
         'engines': [
             {'name': 'irx+llir', 'path': 'lib/irx.py, lib/llir.py', 'serves_properties': sorted(CLAIMS), 'kind_free_text': 'clang/opt IR pipeline and IR reader (CFG, dominators, loops, def-use)'},
-            {'name': 'ALG', 'path': 'lib/symx.py, lib/alg.py', 'serves_properties': ['C15', 'C19'], 'kind_free_text': 'abstract interpreter over exact algebraic values with trace partitioning'},
+            {'name': 'ALG', 'path': 'lib/symx.py, lib/alg.py', 'serves_properties': ['C12', 'C15', 'C17', 'C19'], 'kind_free_text': 'abstract interpreter over exact algebraic values with trace partitioning'},
             {'name': 'BIT', 'path': 'lib/bit.py, lib/looptx.py', 'serves_properties': ['C17', 'C18', 'C19'], 'kind_free_text': 'GF(2) algebraic-normal-form bit vectors; loop-body state transformers'},
             {'name': 'ABI', 'path': 'props/C20.py, lib/dwarf.py, lib/rustsrc.py', 'serves_properties': ['C20'], 'kind_free_text': 'declaration and layout agreement'},
         ],
